@@ -46,6 +46,8 @@ def build_names(d):
         'unicode': ['gr\u00f6\u00dfe', 'z\u00e4hler', 'na\u00efve_sum', 'out_\u00e9'],
         'dollar': ['a$b', '$x', 'c$', 'd'],
         'own_names': ['tb_iter', 'block', 'toplevel', 'mem_0'],
+        'whitespace': ['a', 'a\n', 'r\t', 'o '],
+        'newline_mid': ['x\ny', 'x', 'y', 'x y'],
     }
     n0, n1, n2, n3 = sets[k]
     a = pyrtl.Input(2, n0)
@@ -68,11 +70,11 @@ designs.register_family('NAMES', build_names)
 
 def names_cases():
     return [{'fam': 'NAMES', 'kind': k} for k in ('keywords', 'illegal_chars', 'brackets', 'collide_tmp', 'two_bad', 'sortkey_tie', 'plain',
-                                                     'keywords2', 'keywords3', 'unicode', 'dollar', 'own_names')]
+                                                     'keywords2', 'keywords3', 'unicode', 'dollar', 'own_names', 'whitespace', 'newline_mid')]
 
 
 def bounds(tier):
-    return {'designs': 'OP (all ops but nand) widths %s, EXPR %d, SEQ, MISC, NAMES (8 adversarial name sets)' % (
+    return {'designs': 'OP (all ops but nand) widths %s, EXPR %d, SEQ, MISC, NAMES (14 adversarial name sets)' % (
         [1, 2, 3, 4, 5, 8] if tier == 'quick' else designs.WT, 20 if tier == 'quick' else 400), 'K': 3 if tier == 'quick' else 5,
         'add_reset': RESETS, 'testbench trace sources': ['sim', 'fast', 'compiled']}
 
